@@ -16,11 +16,13 @@ def run(rep, tier, seed):
     import histgen
     k2check.run_k2(rep, 'C13', tier, seed, 'c13', nh, nops, extra_histories=histgen.corpus_histories())
     fault_segment(rep, tier, seed)
-    rep.cov['rule'] = RULES['C13'] + '; plus: every MANIFEST append/fsync and directory fsync of 2 (quick) histories fails once, after which a fault-free reopen must succeed (obsolete-file removal must stop after a failed version install)' + '; distinct_nontrivial = histories with >= 1 flush and >= 1 non-trivial compaction'
+    rep.cov['rule'] = RULES['C13'] + '; plus: every MANIFEST append/fsync and directory fsync of 2 (quick) histories fails once, after which a fault-free reopen must succeed (obsolete-file removal must stop after a failed version install); crash images with orphan tables of a multi-output compaction are recovered on the PTHREAD build with delayed unlinks and must behave like the single-threaded recovery (no orphan removal may hit a file the background thread has just created); on the pthread build a copy of the directory at every log unlink of a continuously writing client must recover every write acknowledged before the unlink' + '; distinct_nontrivial = histories with >= 1 flush and >= 1 non-trivial compaction'
 
 def fault_segment(rep, tier, seed):
     import k3check
     k3check.failed_install_segment(rep, tier, seed)
+    k3check.orphan_race_segment(rep, tier, seed)
+    k3check.log_gc_race_segment(rep, tier, seed)
 
 def replay(rep, path):
     return k2check.replay_k2(rep, path)
